@@ -53,6 +53,15 @@ where
         }
     }
 
+    pub(crate) fn is_empty(&self) -> bool {
+        self.nodes.is_empty()
+    }
+
+    pub(crate) fn clear(&mut self) {
+        self.indices.clear();
+        self.nodes.clear();
+    }
+
     pub(crate) fn lookup(&self, goal: &K) -> Option<DepthFirstNumber> {
         self.indices.get(goal).cloned()
     }
